@@ -128,7 +128,55 @@ def nested_model(kind, n):
     return NEST_HEAD + body + "</definitions>"
 
 
+def _dec(body, extra=""):
+    return '<decision name="d" id="d"><variable name="d"/>%s%s</decision>' % (extra, body)
+
+
+_LIT1 = "<literalExpression><text>1</text></literalExpression>"
+_END = "</definitions>"
+# the hand-minimised inputs of findings/C12.md: re-judged by every run (a fixed finding that comes back is reported again)
+MINIMAL = {
+    "F1-fewer-input-entries": NEST_HEAD + _dec("<decisionTable><input><inputExpression><text>1</text></inputExpression></input><output/>"
+                                               "<rule><outputEntry><text>1</text></outputEntry></rule></decisionTable>") + _END,
+    "F2-fewer-output-entries": NEST_HEAD + _dec("<decisionTable><output/><rule/></decisionTable>") + _END,
+    "F3-no-output": NEST_HEAD + _dec("<decisionTable><rule/></decisionTable>") + _END,
+    "F3-no-output-rule-order": NEST_HEAD + _dec('<decisionTable hitPolicy="RULE ORDER"><rule/></decisionTable>') + _END,
+    "F3-no-output-collect-sum": NEST_HEAD + _dec('<decisionTable hitPolicy="COLLECT" aggregation="SUM"><rule/></decisionTable>') + _END,
+    "F3-no-output-collect-min": NEST_HEAD + _dec('<decisionTable hitPolicy="COLLECT" aggregation="MIN"><rule/></decisionTable>') + _END,
+    "F3-no-output-collect-max": NEST_HEAD + _dec('<decisionTable hitPolicy="COLLECT" aggregation="MAX"><rule/></decisionTable>') + _END,
+    "F3-no-output-collect-count": NEST_HEAD + _dec('<decisionTable hitPolicy="COLLECT" aggregation="COUNT"><rule/></decisionTable>') + _END,
+    "F4-decision-requires-itself": NEST_HEAD + _dec(_LIT1, '<informationRequirement><requiredDecision href="#d"/></informationRequirement>') + _END,
+    "F4-two-decisions": NEST_HEAD + '<decision name="a" id="a"><variable name="a"/><informationRequirement><requiredDecision href="#b"/>'
+                        '</informationRequirement>' + _LIT1 + '</decision><decision name="b" id="b"><variable name="b"/><informationRequirement>'
+                        '<requiredDecision href="#a"/></informationRequirement>' + _LIT1 + "</decision>" + _END,
+    "F5-knowledge-model-requires-itself": NEST_HEAD + '<businessKnowledgeModel name="b" id="b"><variable name="b"/><knowledgeRequirement>'
+                        '<requiredKnowledge href="#b"/></knowledgeRequirement><encapsulatedLogic>' + _LIT1 + "</encapsulatedLogic></businessKnowledgeModel>" + _END,
+    "F5-at-build-time": NEST_HEAD + '<businessKnowledgeModel name="b" id="b"><variable name="b"/><knowledgeRequirement>'
+                        '<requiredKnowledge href="#b"/></knowledgeRequirement><encapsulatedLogic>' + _LIT1 + "</encapsulatedLogic></businessKnowledgeModel>" +
+                        _dec(_LIT1, '<knowledgeRequirement><requiredKnowledge href="#b"/></knowledgeRequirement>') + _END,
+    "F6-service-cycle": NEST_HEAD + _dec("<literalExpression><text>s()</text></literalExpression>",
+                                         '<knowledgeRequirement><requiredKnowledge href="#s"/></knowledgeRequirement>') +
+                        '<decisionService name="s" id="s"><variable name="s"/><outputDecision href="#d"/></decisionService>' + _END,
+    "F7-type-references-itself": NEST_HEAD + '<itemDefinition name="t"><typeRef>t</typeRef></itemDefinition>'
+                        '<decision name="d" id="d"><variable name="d" typeRef="t"/>' + _LIT1 + "</decision>" + _END,
+    "F7-at-evaluation": NEST_HEAD + '<itemDefinition name="t"><typeRef>t</typeRef></itemDefinition><inputData name="i" id="i">'
+                        '<variable name="i" typeRef="t"/></inputData>' + _dec("<literalExpression><text>i</text></literalExpression>",
+                        '<informationRequirement><requiredInput href="#i"/></informationRequirement>') + _END,
+    "F7-through-component-and-collection": NEST_HEAD + '<itemDefinition name="t"><itemComponent name="c"><typeRef>u</typeRef></itemComponent></itemDefinition>'
+                        '<itemDefinition name="u" isCollection="true"><typeRef>t</typeRef></itemDefinition>'
+                        '<decision name="d" id="d"><variable name="d" typeRef="t"/>' + _LIT1 + "</decision>" + _END,
+    "F8-recursive-knowledge-model": NEST_HEAD + '<businessKnowledgeModel name="f" id="f"><variable name="f"/><encapsulatedLogic>'
+                        '<formalParameter name="n" typeRef="number"/><literalExpression><text>if n &lt; 2 then n else f(n - 1) + f(n - 2)</text>'
+                        "</literalExpression></encapsulatedLogic></businessKnowledgeModel>" + _END,
+    "F11-href-colon": NEST_HEAD + _dec(_LIT1, '<informationRequirement><requiredDecision href=":"/></informationRequirement>') + _END,
+    "F11-href-colon-slash-slash": NEST_HEAD + _dec(_LIT1, '<informationRequirement><requiredInput href="://host/x#y"/></informationRequirement>') + _END,
+}
+SLOW_MINIMAL = ("F8-recursive-knowledge-model",)   # takes seconds to exhaust the stack: thorough tier only
+
+
 def mutate(case):
+    if "min" in case:
+        return MINIMAL[case["min"]], 0
     if "nest" in case:
         return nested_model(case["nest"], case["depth"]), 0
     k = canon(case)
@@ -146,6 +194,8 @@ def mutate(case):
 
 
 def reqs_probe(case):
+    if "min" in case:
+        return [{"op": "probe", "xml": mutate(case)[0], "inputs": [[["i", {"n": "1"}], ["n", {"n": "5"}]]], "names": []}]
     if "nest" in case:
         return [{"op": "probe", "xml": mutate(case)[0], "inputs": [[["d", {"n": "1"}]], [["d", {"l": [None]}]]], "names": ["d"]}]
     doc, typical, names = load_base(case["base"])
@@ -330,6 +380,8 @@ def outcome(r):
 
 
 def describe(case):
+    if "min" in case:
+        return "minimal model %s: %s" % (case["min"], MINIMAL[case["min"]])
     if "nest" in case:
         return "generated model with %s nested %d deep" % (case["nest"], case["depth"])
     doc = load_base(case["base"])[0]
@@ -348,10 +400,11 @@ def judge_probe(ctx, case, resp, prof):
     r = resp[0]
     xml, applied = mutate(case)
     req = None
-    hang_reported = any(v["signature"].startswith("C12/hang") for v in ctx.violations)
+    hang_sig = "C12/hang/nested-list" if case.get("nest") == "list-literal" else "C12/hang"
+    hang_reported = hang_sig in ctx.known_seen or any(v["signature"] == hang_sig for v in ctx.violations)
     if "timeout" in r and not hang_reported:
-        # a time-out only counts after the request was re-run alone with a 10x budget (3 attempts); once a hang has been
-        # reported in this run, further time-outs are not re-confirmed (each confirmation costs 30x the request budget)
+        # a time-out only counts after the request was re-run alone with a 10x budget (3 attempts); once a hang with the same
+        # signature has been confirmed in this run, further time-outs are not re-confirmed (each confirmation costs 30x the budget)
         req = reqs_probe(case)[0]
         d = ctx.driver(prof)
         for _ in range(3):
@@ -373,7 +426,9 @@ def judge_probe(ctx, case, resp, prof):
             ctx.extra["unconfirmed_deaths"] = ctx.extra.get("unconfirmed_deaths", 0) + 1
         r = r2
     out = outcome(r)
-    if "nest" in case:
+    if "min" in case:
+        labels = ["minimal"]
+    elif "nest" in case:
         labels = ["nesting", "nesting:%s" % case["nest"], "depth:%d" % case["depth"]]
     elif "bytes" in case:
         labels = ["bytes", "bytes:" + "+".join(sorted({o[0] for o in case["bytes"]}))]
@@ -383,7 +438,7 @@ def judge_probe(ctx, case, resp, prof):
         if applied < len(case["faults"]):
             labels.append("pair-overlap(outer-only)")
     labels.append("outcome:" + out)
-    labels.append("base:" + ("generated" if "nest" in case or "gen" in case["base"] else "file"))
+    labels.append("base:" + ("generated" if "nest" in case or "min" in case or "gen" in case["base"] else "file"))
     nontrivial = xf.well_formed(xml)
     labels.append("well-formed" if nontrivial else "not-xml")
     if prof == "release" and len(case.get("faults", ())) == 1:
@@ -393,7 +448,7 @@ def judge_probe(ctx, case, resp, prof):
     if ctx.sample_slots.get(labels[0], 0) < 2 or out in ("panic", "died", "timeout"):
         sample = {"case": describe(case)[:300], "profile": prof, "outcome": out,
                   "answer": canon({k: v for k, v in r.items() if k != "results"})[:300]}
-    key = h(case) if "nest" in case else h([base_key(case["base"]), case.get("faults"), case.get("bytes")])
+    key = h(case) if "nest" in case or "min" in case else h([base_key(case["base"]), case.get("faults"), case.get("bytes")])
     ctx.note(key=key, nontrivial=nontrivial, labels=labels, sample=sample)
     fail = verdict(ctx, case, r, out, xml, prof)
     if fail is not None and fail.sig not in ctx.open_sigs and any(v["signature"] == fail.sig for v in ctx.violations):
@@ -424,17 +479,17 @@ def verdict(ctx, case, r, out, xml, prof):
                         "but these knowledge models call themselves: %s" % (prof, describe(case), code, ", ".join(rec)), died=code, recursive=rec)
         return Fail("C12/abort", "[%s] %s\n  the process died (exit %s) and the mutated model contains no cyclic requirement" % (
             prof, describe(case), code), died=code)
-    if out == "timeout" and case.get("nest") == "list-literal":
-        return Fail("C12/hang/nested-list", "[%s] %s\n  no answer within %.0f s, three times, running alone" % (
-            prof, describe(case), confirm_budget(ctx.driver(prof))))
     if out == "timeout":
-        return Fail("C12/hang", "[%s] %s\n  no answer within %.0f s, three times, running alone" % (prof, describe(case), confirm_budget(ctx.driver(prof))))
+        return Fail("C12/hang/nested-list" if case.get("nest") == "list-literal" else "C12/hang",
+                    "[%s] %s\n  no answer within %.0f s, three times, running alone (or like an already confirmed hang of this run)" % (
+                        prof, describe(case), confirm_budget(ctx.driver(prof))))
     if out == "other":
         raise Inconclusive("driver answered %r for %s" % (r, describe(case)))
     if out == "built":
         names = r.get("invocables") or []
-        if not isinstance(r.get("results"), list) or len(r["results"]) != 3 * len(names):
-            return Fail("C12/no-value", "[%s] %s\n  %d invocables x 3 inputs but %r results" % (
+        per = 2 if "min" in case else 3
+        if not isinstance(r.get("results"), list) or len(r["results"]) != per * len(names):
+            return Fail("C12/no-value", "[%s] %s\n  %d invocables x (1 + given) inputs but %r results" % (
                 prof, describe(case), len(names), len(r.get("results") or [])))
     return None
 
@@ -546,7 +601,8 @@ def plan(ctx):
 
 
 def setup(ctx):
-    ctx.rule = ("cases: a shipped .dmn file or a generated model + one structural fault (every class of oracles/xml_faults.py at every "
+    ctx.rule = ("cases: the hand-minimised models of the findings, a nesting-depth grid, every shipped model unmutated, and: "
+                "a shipped .dmn file or a generated model + one structural fault (every class of oracles/xml_faults.py at every "
                 "position), a pair of faults, or 1-3 byte-level corruptions; each probed on both builds with the empty, the file's typical "
                 "and a wrong-typed input for every invocable name of the unmutated and mutated model. oracle: any error or value passes; panic, process death "
                 "(re-run alone in a fresh driver) or hang (re-run alone 3x with 10x budget) fails. non-trivial: the mutated text is still "
@@ -555,6 +611,7 @@ def setup(ctx):
                        "texts that are not valid UTF-8 cannot reach dmntk_model::parse(&str); corrupted bytes are decoded with U+FFFD",
                        "SIGABRT/SIGSEGV of the driver while the mutated model contains a cyclic requirement is attributed to that cycle"]
     ctx.p_single = ctx.register(Part("single", None, reqs_probe, judge_probe, profile="both"))
+    ctx.p_min = ctx.register(Part("minimal", None, reqs_probe, judge_probe, profile="both"))
     ctx.p_nest = ctx.register(Part("nesting", None, reqs_probe, judge_probe, profile="both"))
     ctx.p_pair = ctx.register(Part("pair", gen_pair(ctx), reqs_probe, judge_probe, profile="both"))
     ctx.p_bytes = ctx.register(Part("bytes", gen_bytes(ctx), reqs_probe, judge_probe, profile="both"))
@@ -581,6 +638,10 @@ def run(ctx):
         enumerate_singles(ctx, b, "all single structural faults of %d generated models" % len(gens), True)
         if ctx.stop():
             return
+    ctx.enumerate(ctx.p_min, ({"min": k} for k in MINIMAL if ctx.thorough() or k not in SLOW_MINIMAL), batch=1,
+                  name="hand-minimised models of findings/C12.md", exhaustive=True)
+    if ctx.stop():
+        return
     # nesting depth grid (valid models; the deepest list literal is a thorough-tier case because confirming a hang takes minutes)
     depths = {k: [16, 128, 1024, 4096] + ([20000] if ctx.thorough() else []) for k in NEST_KINDS}
     depths["list-literal"] = [4, 8, 16, 20] + ([48] if ctx.thorough() else [])
